@@ -261,7 +261,8 @@ func (w *binaryWriter) WriteSymbol(val SymbolToken) error {
 			return w.err
 		}
 	} else {
-		return &UsageError{"Writer.WriteSymbol", "symbol token without defined text or symbol id is invalid"}
+		w.err = &UsageError{"Writer.WriteSymbol", "symbol token without defined text or symbol id is invalid"}
+		return w.err
 	}
 
 	return w.writeSymbolFromID("Writer.WriteSymbol", id)
